@@ -4,9 +4,13 @@
        compiler-dumped table of seq< json::text, eof >, gen/Json_gen.v)                     -> model=...
    and prints one line per case:   <hex> oracle=<0|1> model=<true|false|throw|error|oof|skip>
 
-     c14_driver [--no-model] <cases>
+     c14_driver [--no-model] [-c] <cases>
    case file: one hex-encoded input per line, "-" for the empty input; a line starting with '!'
    (or the flag --no-model) skips the model column for that case (model=skip).
+
+   -c  compact output for the bulk families: TWO lines, each holding one character per case in case
+       order: line 1 the oracle column (1 0, E = bad case line), line 2 the model column
+       (t f x e o s = true false throw error oof skip, E = bad case line).
 
    Fuel of the model (a Peano nat; bounds recursion depth and loop iterations): 64 + 4*len, doubled
    on VOutOfFuel up to FUEL_CAP, then model=oof.
@@ -51,11 +55,14 @@ let model_verdict data len =
 
 let () =
   let no_model = ref false in
+  let compact = ref false in
   let file = ref "" in
-  Array.iteri (fun i a -> if i > 0 then (if a = "--no-model" then no_model := true else file := a)) Sys.argv;
-  if !file = "" then (prerr_endline "usage: c14_driver [--no-model] <cases>"; exit 2);
+  Array.iteri (fun i a -> if i > 0 then (if a = "--no-model" then no_model := true else if a = "-c" then compact := true else file := a)) Sys.argv;
+  if !file = "" then (prerr_endline "usage: c14_driver [--no-model] [-c] <cases>"; exit 2);
   let ic = open_in !file in
   let out = Buffer.create 65536 in
+  let col_o = Buffer.create 65536 in
+  let col_m = Buffer.create 65536 in
   (try
      while true do
        let line = String.trim (input_line ic) in
@@ -63,7 +70,16 @@ let () =
          let skip = line.[0] = '!' in
          let h = if skip then String.sub line 1 (String.length line - 1) else line in
          (match (try Some (unhex h) with Failure _ -> None) with
-          | None -> Buffer.add_string out (h ^ " ERROR bad case\n")
+          | None ->
+              if !compact then (Buffer.add_char col_o 'E'; Buffer.add_char col_m 'E')
+              else Buffer.add_string out (h ^ " ERROR bad case\n")
+          | Some data when !compact ->
+              let len = List.length data in
+              Buffer.add_char col_o (if rfc8259_b data then '1' else '0');
+              Buffer.add_char col_m
+                (if skip || !no_model then 's'
+                 else match model_verdict data len with
+                   | "true" -> 't' | "false" -> 'f' | "throw" -> 'x' | "error" -> 'e' | _ -> 'o')
           | Some data ->
               let len = List.length data in
               let o = if rfc8259_b data then "1" else "0" in
@@ -79,4 +95,5 @@ let () =
      done
    with End_of_file -> ());
   print_string (Buffer.contents out);
+  if !compact then (print_string (Buffer.contents col_o); print_char '\n'; print_string (Buffer.contents col_m); print_char '\n');
   close_in ic
